@@ -19,4 +19,7 @@ pub mod topic {
 pub mod mock;
 #[cfg(kani)]
 mod pubsub_t;
-// (reqrep harness modules temporarily detached)
+#[cfg(kani)]
+pub mod reqrep_mock;
+#[cfg(kani)]
+mod reqrep_t;
